@@ -75,3 +75,5 @@ Definition run (inp : val) : option val :=
       end
   | _ => None
   end.
+
+Definition check_line := check_line_with run.
